@@ -17,6 +17,7 @@ from slimta.queue import Queue
 from slimta.queue.dict import DictStorage
 from slimta.envelope import Envelope
 from slimta.relay import Relay, PermanentRelayError, TransientRelayError
+from slimta.policy import RelayPolicy
 import slimta.relay.pipe as pipe_mod
 from slimta.relay.pipe import PipeRelay
 from slimta.smtp.reply import Reply
@@ -88,6 +89,14 @@ class Gate(object):
 
 
 RES_CODE = {'ok': 0, 'perm': 1, 'temp': 2, 'junk': 3}
+INF = float('inf')
+BIG = 2 ** 40        # the model's stand-in for an infinite backoff answer ("hold until flushed")
+
+
+def ts_int(ts):
+    """a timetable / storage timestamp as the model sees it: an infinite due time is BIG past anything"""
+    return BIG if ts == INF or ts >= BIG else int(ts)
+
 
 
 class _Busy(object):
@@ -168,7 +177,7 @@ class TraceStore(object):
                 gone = list(last['rcpts'])
             for r in gone:
                 self.h.exhausted.add((mid, r))
-        self.h.emit((3, mid, () if b is None else (b,)))
+        self.h.emit((3, mid, () if b is None else ((BIG if b == INF else b),)))
         return self.inner.increment_attempts(id)
 
     def set_timestamp(self, id, timestamp):
@@ -266,13 +275,17 @@ class StubRelay(_RelayBook, Relay):
             h.note_settled(mid, rc, 'deliv')
             h.emit((2, mid, (0,)))
             return None
+        # the relay contract classifies by the exception CLASS; the reply an error carries is free
+        # text for the bounce (a permanent error may carry a 4xx reply and the other way round)
+        cross = h.cross_codes and (len(h.attempts) % 2 == 1)
+        tcode, pcode = ('550', '450') if cross else ('450', '550')
         if kind == 'temp':
             h.emit((2, mid, (1,)))
-            raise TransientRelayError('t', Reply('450', 'transient'))
+            raise TransientRelayError('t', Reply(tcode, 'transient'))
         if kind == 'perm':
             h.note_settled(mid, rc, 'fail')
             h.emit((2, mid, (2,)))
-            raise PermanentRelayError('p', Reply('550', 'permanent'))
+            raise PermanentRelayError('p', Reply(pcode, 'permanent'))
         if kind == 'other':
             h.emit((2, mid, (3,)))
             raise ValueError('boom')
@@ -286,9 +299,9 @@ class StubRelay(_RelayBook, Relay):
                 if x == 'ok':
                     vals.append(None)
                 elif x == 'perm':
-                    vals.append(PermanentRelayError('p', Reply('550', 'permanent')))
+                    vals.append(PermanentRelayError('p', Reply(pcode, 'permanent')))
                 elif x == 'temp':
-                    vals.append(TransientRelayError('t', Reply('450', 'transient')))
+                    vals.append(TransientRelayError('t', Reply(tcode, 'transient')))
                 else:
                     vals.append(object())
             if kind == 'seq':
@@ -302,6 +315,16 @@ class StubRelay(_RelayBook, Relay):
                 pairs = pairs[1::2] + pairs[0::2]
             return dict(pairs)
         raise AssertionError(out)
+
+
+class _RewriteDomain(RelayPolicy):
+    """a RelayPolicy that rewrites every recipient's domain in place (documented as allowed): the
+    relay then reports per-recipient results keyed by the REWRITTEN addresses"""
+
+    def apply(self, envelope):
+        for i, r in enumerate(envelope.recipients):
+            if not r.endswith('@relay.example'):
+                envelope.recipients[i] = r.split('@')[0] + '@relay.example'
 
 
 class _FakeProc(object):
@@ -453,6 +476,7 @@ class QH(object):
         self.load_errors = []
         self.post_write_gate = False
         self.wait_generator = False
+        self.cross_codes = False
         self.volatile_ts = {}     # mid -> timestamp to report for entries whose stored timestamp is 'now' at every listing (redis orphans)
         self.inner = inner if inner is not None else DictStorage()
         self.store = TraceStore(self, self.inner)
@@ -489,7 +513,7 @@ class QH(object):
                 mid = h.ids.get(rid)
                 if mid is None:
                     mid = h.foreign_id(rid)
-                h.emit((9, int(ts), mid))
+                h.emit((9, ts_int(ts), mid))
             return orig_add(entry, *a, **kw)
         self.queue._add_queued = add_queued
         orig_imap = self.queue._pool_imap
@@ -646,16 +670,17 @@ class QH(object):
             try:
                 env, att = self.inner.get(rid)
             except Exception as exc:       # a corrupted entry is part of the observed state
-                st.append((self.ids.get(rid, -1), 'get-raises:' + type(exc).__name__, (), -1, int(ts)))
+                st.append((self.ids.get(rid, -1), 'get-raises:' + type(exc).__name__, (), -1, ts_int(ts)))
                 continue
             mid_ = self.ids[rid]
-            st.append((mid_, 1 if env.sender else 0, tuple(self.rnum(r) for r in env.recipients), att, self.volatile_ts.get(mid_, int(ts))))
+            st.append((mid_, 1 if env.sender else 0, tuple(self.rnum(r) for r in env.recipients), att, self.volatile_ts.get(mid_, ts_int(ts))))
         wait = None
         if q.wake.waiters:
-            wait = ('wait', q.wake.waiters[0][1])
+            dl_ = q.wake.waiters[0][1]
+            wait = ('wait', None if dl_ is None else (BIG if dl_ == INF or dl_ >= BIG else dl_))
         return dict(
             store=sorted(st, key=repr),
-            queued=sorted((int(ts), self.ids[rid]) for ts, rid in q.queued),
+            queued=sorted((ts_int(ts), self.ids[rid]) for ts, rid in q.queued),
             qids=sorted(self.ids[r] for r in q.queued_ids),
             active=sorted(self.ids[r] for r in q.active_ids),
             gates=sorted([(g.kind, g.mid) for g in self.gates if g.kind not in ('write', 'written', 'load', 'wait', 'wait_end')] + list(self.blocked)),
@@ -723,12 +748,12 @@ def decode_state(o):
     elif sched[0] == 1:
         sc = ('wait', None)
     elif sched[0] == 2:
-        sc = ('wait', sched[1])
+        sc = ('wait', BIG if sched[1] >= BIG else sched[1])
     else:
         sc = ('woken',)
     return dict(
-        store=sorted((m[0], m[1], tuple(m[2][1]), m[3], m[4]) for m in store),
-        queued=sorted((e[0], e[1]) for e in queued),
+        store=sorted((m[0], m[1], tuple(m[2][1]), m[3], BIG if m[4] >= BIG else m[4]) for m in store),
+        queued=sorted((BIG if e[0] >= BIG else e[0], e[1]) for e in queued),
         qids=sorted(qids[1]), active=sorted(active[1]),
         gates=sorted(gates), sched=sc, wake=bool(wake), clock=clock,
         enq=enq,
@@ -852,6 +877,9 @@ class Run(object):
         self.h = QH(inner=inner, relay_pool=cfg.get('relay_pool'), relay_kind=cfg.get('relay'))
         self.h.post_write_gate = bool(cfg.get('race_announce'))
         self.h.wait_generator = bool(cfg.get('wait_generator'))
+        self.h.cross_codes = bool(cfg.get('cross_codes'))
+        if cfg.get('relay_policy'):
+            self.h.relay.add_policy(_RewriteDomain())
         self.msgs = 0
         self.flush_epoch = 0
         self.fair = True           # no announcement raced an enqueue or a pending remove
@@ -910,7 +938,7 @@ class Run(object):
         if a[0] == 'advance':
             cands = [1, 5]
             if h.queue.queued:
-                nxt = int(h.queue.queued[0][0]) - h.clock
+                nxt = 0 if h.queue.queued[0][0] == INF else int(h.queue.queued[0][0]) - h.clock
                 if nxt > 0:
                     cands += [nxt, nxt]
             d = self.pick(cands)
@@ -942,7 +970,7 @@ class Run(object):
         if g.kind == 'relay':
             payload = self.relay_outcome(g.info)
         elif g.kind == 'incr':
-            payload = self.pick([None, 0, 5, 10, 0, 5])
+            payload = self.pick([None, 0, 5, 10, 0, 5] + ([INF] if self.cfg.get('inf_backoff') else []))
         elif g.kind in ('load', 'wait'):
             stored = sorted(h.listing(), key=lambda e: h.ids.get(e[1], -1))
             opts = [[]] + [[e] for e in stored]
@@ -969,6 +997,12 @@ class Run(object):
             if not gs:
                 if not h.queue.queued:
                     break
+                if h.queue.queued[0][0] == INF:
+                    # held until flushed (the backoff answered with an infinite delay)
+                    self.flush_epoch += 1
+                    h.flush_epoch = self.flush_epoch
+                    h.act_flush()
+                    continue
                 nxt = max(1, int(h.queue.queued[0][0]) - h.clock)
                 h.act_advance(nxt)
                 continue
